@@ -407,6 +407,37 @@ pub fn label_bwd(s: &mut Src, avx: bool, f: impl FnOnce(&mut AssemblerX64, Label
     conclude(&code[..end], p, len, with_target(want0, 0 - (end as i32)), p, 0);
 }
 
+/// `__sweep` rows are EXECUTED only (seeded distances 0..600 over the short/near boundary at 127/128), never given to CBMC:
+/// a symbolic number of filler bytes makes the formula explode, and the unbounded statement is proved in Verus
+/// (contracts/c07_jumps.vspec). Their purpose is a concrete failing distance when that proof breaks.
+pub fn label_sweep_fwd(s: &mut Src, f: impl FnOnce(&mut AssemblerX64, Label, &mut Src) -> Insn) {
+    let d = (s.u16() % 600) as usize;
+    let mut a = AssemblerX64::new(false);
+    let l = a.create_label();
+    let want0 = f(&mut a, l, s);
+    let n = a.position();
+    for _ in 0..d {
+        a.nop();
+    }
+    a.bind_label(l);
+    let code = a.finalize(1).code();
+    let end = if n <= code.len() { n } else { code.len() };
+    conclude(&code[..end], 0, end, with_target(want0, d as i32), 0, d);
+}
+pub fn label_sweep_bwd(s: &mut Src, f: impl FnOnce(&mut AssemblerX64, Label, &mut Src) -> Insn) {
+    let d = (s.u16() % 600) as usize;
+    let mut a = AssemblerX64::new(false);
+    let l = a.create_and_bind_label();
+    for _ in 0..d {
+        a.nop();
+    }
+    let want0 = f(&mut a, l, s);
+    let code = a.finalize(1).code();
+    let end = code.len();
+    let len = if end >= d { end - d } else { 0 };
+    conclude(&code, d, len, with_target(want0, 0 - (end as i32)), d, 0);
+}
+
 // ==================================================================================================
 // rows (row name == method name; `__fwd` / `__bwd` variants for label forms)
 
@@ -677,3 +708,13 @@ crate::vp_harness!(vandpd_rl__bwd, unwind = 6, |s| { label_bwd(s, true, |a, l, s
 crate::vp_harness!(vandps_rl__bwd, unwind = 6, |s| { label_bwd(s, true, |a, l, s| { let (x, n) = xmm(s); let (y, k) = xmm(s); a.vandps_rl(x, y, l); Insn::op3(Mn::Andps, 128, Operand::Xmm(n), Operand::Xmm(k), mem_rip(0, 128)).with_vex() }) });
 crate::vp_harness!(vxorpd_rl__bwd, unwind = 6, |s| { label_bwd(s, true, |a, l, s| { let (x, n) = xmm(s); let (y, k) = xmm(s); a.vxorpd_rl(x, y, l); Insn::op3(Mn::Xorpd, 128, Operand::Xmm(n), Operand::Xmm(k), mem_rip(0, 128)).with_vex() }) });
 crate::vp_harness!(vxorps_rl__bwd, unwind = 6, |s| { label_bwd(s, true, |a, l, s| { let (x, n) = xmm(s); let (y, k) = xmm(s); a.vxorps_rl(x, y, l); Insn::op3(Mn::Xorps, 128, Operand::Xmm(n), Operand::Xmm(k), mem_rip(0, 128)).with_vex() }) });
+
+// ---- executed-only distance sweeps (see label_sweep_fwd) ----
+crate::vp_harness!(jmp__fwd_sweep, |s| { label_sweep_fwd(s, |a, l, _s| { a.jmp(l); Insn::op1(Mn::Jmp, 0, Operand::Rel(0)) }) });
+crate::vp_harness!(jcc__fwd_sweep, |s| { label_sweep_fwd(s, |a, l, s| { let (c, cc) = cond(s); a.jcc(c, l); Insn::op1(Mn::Jcc, 0, Operand::Rel(0)).with_cc(cc) }) });
+crate::vp_harness!(jmp_near__fwd_sweep, |s| { label_sweep_fwd(s, |a, l, _s| { a.jmp_near(l); Insn::op1(Mn::Jmp, 0, Operand::Rel(0)) }) });
+crate::vp_harness!(jcc_near__fwd_sweep, |s| { label_sweep_fwd(s, |a, l, s| { let (c, cc) = cond(s); a.jcc_near(c, l); Insn::op1(Mn::Jcc, 0, Operand::Rel(0)).with_cc(cc) }) });
+crate::vp_harness!(jmp__bwd_sweep, |s| { label_sweep_bwd(s, |a, l, _s| { a.jmp(l); Insn::op1(Mn::Jmp, 0, Operand::Rel(0)) }) });
+crate::vp_harness!(jcc__bwd_sweep, |s| { label_sweep_bwd(s, |a, l, s| { let (c, cc) = cond(s); a.jcc(c, l); Insn::op1(Mn::Jcc, 0, Operand::Rel(0)).with_cc(cc) }) });
+crate::vp_harness!(jmp_near__bwd_sweep, |s| { label_sweep_bwd(s, |a, l, _s| { a.jmp_near(l); Insn::op1(Mn::Jmp, 0, Operand::Rel(0)) }) });
+crate::vp_harness!(jcc_near__bwd_sweep, |s| { label_sweep_bwd(s, |a, l, s| { let (c, cc) = cond(s); a.jcc_near(c, l); Insn::op1(Mn::Jcc, 0, Operand::Rel(0)).with_cc(cc) }) });
